@@ -110,13 +110,110 @@ fn check(ctx: &Ctx, i: u64, respellings: u64) {
     }
 }
 
+/// Real source files of the repository (tests/*.asm with their includes, the shipped part files they
+/// pull in): text-level respellings that are safe without parsing - trailing comments on lines without
+/// strings or comments, blank / comment-only lines, CRLF - outside macro bodies. build_file must not care.
+fn real_files_leg(ctx: &Ctx) {
+    let tests = fw::repo_root().join("tests");
+    let incs = fw::repo_root().join("includes");
+    let scratch = fw::verif_root().join("build").join(format!("scratch-c14-{}", std::process::id()));
+    let mains = ["builder_simple.asm", "include_test.asm", "include_path_test.asm"];
+    for (mi, main) in mains.iter().enumerate() {
+        let orig = tests.join(main);
+        let Ok(text) = std::fs::read_to_string(&orig) else {
+            ctx.note(format!("real file {} not found: skipped", main));
+            continue;
+        };
+        let a = fw::build_file(&orig, &[incs.clone()]);
+        for round in 0..6u64 {
+            let mut rng = Rng::for_case(ctx.seed, 0xC14_F, (mi as u64) << 8 | round);
+            let dir = scratch.join(format!("m{}r{}", mi, round));
+            // a private copy of tests/ so that includes relative to the main file keep working
+            let _ = std::fs::remove_dir_all(&dir);
+            if copy_dir(&tests, &dir).is_err() {
+                ctx.inconclusive("cannot copy tests/ to scratch");
+                continue;
+            }
+            let crlf = round % 2 == 1;
+            let mut out = String::new();
+            let mut in_macro = false;
+            for line in text.lines() {
+                let t = line.trim_start().to_lowercase();
+                if t.starts_with(".macro") {
+                    in_macro = true;
+                }
+                let nl = if crlf { "\r\n" } else { "\n" };
+                if !in_macro && rng.chance(1, 5) {
+                    out.push_str(match rng.below(3) {
+                        0 => "",
+                        1 => "   \t",
+                        _ => "; inserted comment line, with .endif and \"quotes\"",
+                    });
+                    out.push_str(nl);
+                }
+                out.push_str(line);
+                let plain = !line.contains(';') && !line.contains("//") && !line.contains("/*") && !line.contains('"') && !line.contains('\'');
+                if !in_macro && plain && !line.trim().is_empty() && rng.chance(1, 3) {
+                    out.push_str(match rng.below(3) {
+                        0 => " ; trailing",
+                        1 => "\t// trailing, too",
+                        _ => " /* c-style */",
+                    });
+                }
+                out.push_str(nl);
+                if t.starts_with(".endm") {
+                    in_macro = false;
+                }
+            }
+            let respelled = dir.join(main);
+            if std::fs::write(&respelled, &out).is_err() {
+                ctx.inconclusive("cannot write respelled file");
+                continue;
+            }
+            let b = fw::build_file(&respelled, &[incs.clone()]);
+            ctx.eval(1);
+            ctx.count("real_file_respellings", 1);
+            let same = match (&a, &b) {
+                (Outcome::Ok(x), Outcome::Ok(y)) => x.code == y.code && x.eeprom == y.eeprom && (x.flash_size, x.eeprom_size, x.ram_size, x.ram_filling) == (y.flash_size, y.eeprom_size, y.ram_size, y.ram_filling) && strip_lines(&x.messages) == strip_lines(&y.messages),
+                (Outcome::Err(_), Outcome::Err(_)) => true,
+                _ => false,
+            };
+            if !same {
+                ctx.violation(
+                    format!("syntax/real-file/{}/{}", main, if crlf { "comments+lines+crlf" } else { "comments+lines" }),
+                    format!("respelling {} changed the result: {:?} -> {}", main, a.kind(), fw::clip(&format!("{:?}", b.brief()), 200)),
+                    json!({"source": text, "respelled": out, "dimension": "real-file", "family": "real-file", "observed": a.brief(), "observed_respelled": b.brief(), "real_file": main}),
+                );
+            }
+            let _ = std::fs::remove_dir_all(&dir);
+        }
+    }
+    let _ = std::fs::remove_dir_all(&scratch);
+}
+
+fn copy_dir(from: &std::path::Path, to: &std::path::Path) -> std::io::Result<()> {
+    std::fs::create_dir_all(to)?;
+    for e in std::fs::read_dir(from)? {
+        let e = e?;
+        let p = e.path();
+        let dst = to.join(e.file_name());
+        if p.is_dir() {
+            copy_dir(&p, &dst)?;
+        } else {
+            std::fs::copy(&p, &dst)?;
+        }
+    }
+    Ok(())
+}
+
 pub fn run(ctx: &Ctx) -> i32 {
     let n = ctx.tier.pick(2_000u64, 500_000u64);
     let k = ctx.tier.pick(8u64, 16u64);
     fw::par_for(n, 16, |i| check(ctx, i, k));
+    real_files_leg(ctx);
     fw::finish(
         ctx,
-        "base programs from the layout, data, conditional, macro and symbol generators (valid and failing ones), each rebuilt under 8 (thorough 16) respellings drawn from 9 dimension sets: trailing ;, // and /* */ comments with hostile texts, inserted blank / whitespace-only / comment-only lines, LF vs CRLF, letter case of mnemonics, registers, X/Y/Z, pc, function names and symbol references, radix of every literal (decimal, 0x, $, 0b, leading-zero octal), blanks and tabs after mnemonics, around commas, binary operators, `=`, inside parentheses and function calls, after unary operators and around the `+` of a displacement, and all of them together; distinct_nontrivial = distinct canonical base programs",
+        "base programs from the layout, data, conditional, macro and symbol generators (valid and failing ones), each rebuilt under 8 (thorough 16) respellings drawn from 9 dimension sets: trailing ;, // and /* */ comments with hostile texts, inserted blank / whitespace-only / comment-only lines, LF vs CRLF, letter case of mnemonics, registers, X/Y/Z, pc, function names and symbol references, radix of every literal (decimal, 0x, $, 0b, leading-zero octal), blanks and tabs after mnemonics, around commas, binary operators, `=`, inside parentheses and function calls, after unary operators and around the `+` of a displacement, and all of them together; plus the repository's own tests/*.asm (with the part files they include) under text-level comment / blank-line / CRLF respellings through build_file; distinct_nontrivial = distinct canonical base programs",
         &[
             "not respelled because the statement does not list them: directive names, #define names, macro names, label definitions, indentation before a label; nothing is inserted inside macro bodies (they are stored as text)",
             "messages are compared with their line numbers removed",
@@ -125,6 +222,12 @@ pub fn run(ctx: &Ctx) -> i32 {
 }
 
 pub fn replay(ctx: &Ctx, case: &Value) -> i32 {
+    if case["real_file"].is_string() {
+        real_files_leg(ctx);
+        ctx.distinct(1);
+        ctx.distinct(2);
+        return fw::finish(ctx, "replay", &[]);
+    }
     let a = fw::build_str(case["source"].as_str().unwrap_or(""));
     let b = fw::build_str(case["respelled"].as_str().unwrap_or(""));
     ctx.eval(1);
